@@ -17,7 +17,7 @@ import common as C  # noqa: E402
 
 ID = "C19"
 CHECKER = "chk_config"
-THEOREMS = ['C19_omitted_is_default', 'C19_omitted_is_default_cli', 'C19_fill_defaults_total', 'C19_given_keys_land', 'C19_absent_keys_default', 'C19_invalid_choice_rejected', 'C19_valid_accepted', 'C19_rgrid_spec', 'C19_rgrid_from_keys', 'C19_cli_args_land', 'C19_cli_plan_spec', 'C19_cli_filter_iff_cutoff', 'C19_cli_lorch_iff_flag', 'C19_cli_equals_library_partial', 'C19_cli_reads_differently_refuted', 'C19_cli_reads_differently_always', 'C19_cli_drops_first_data_row', 'C19_cli_is_a_workflow_run', 'C19_cli_keen_outputs', 'C19_cli_final_flow', 'C19_flags_omitted_is_default', 'C19_no_flags_is_default_args', 'C19_flags_omitted_same_settings']
+THEOREMS = ['C19_omitted_is_default', 'C19_omitted_is_default_cli', 'C19_fill_defaults_total', 'C19_given_keys_land', 'C19_absent_keys_default', 'C19_invalid_choice_rejected', 'C19_valid_accepted', 'C19_rgrid_spec', 'C19_rgrid_from_keys', 'C19_cli_args_land', 'C19_cli_plan_spec', 'C19_cli_filter_iff_cutoff', 'C19_cli_lorch_iff_flag', 'C19_cli_equals_library_partial', 'C19_cli_reads_differently_refuted', 'C19_cli_reads_differently_always', 'C19_cli_drops_first_data_row', 'C19_cli_is_a_workflow_run', 'C19_cli_keen_outputs', 'C19_cli_final_flow', 'C19_flags_omitted_is_default', 'C19_no_flags_is_default_args', 'C19_flags_omitted_same_settings', 'C19_set_error_keeps_state', 'C19_set_error_prefix', 'C19_set_grid_init', 'C19_set_grid_step', 'C19_set_grid_run', 'C19_set_grid_restored', 'C19_set_grid_last_grid_op', 'C19_set_grid_last_grid_op_strong', 'C19_set_grid_broken_by_dr', 'C19_set_titles_init', 'C19_set_titles_step', 'C19_set_titles_run', 'C19_set_titles_restored', 'C19_set_titles_last_fn', 'C19_set_titles_broken_by_title_op', 'C19_set_frame_rmin', 'C19_set_frame_rmax', 'C19_set_frame_rdelta', 'C19_set_frame_rho', 'C19_set_frame_bcoh', 'C19_set_frame_btot', 'C19_set_frame_lowq', 'C19_set_frame_lorch', 'C19_set_frame_cutoff', 'C19_set_frame_merge', 'C19_set_frame_qmin', 'C19_set_frame_qmax', 'C19_set_frame_fn', 'C19_set_frame_stem', 'C19_set_frame_xmin', 'C19_set_frame_xmax', 'C19_set_frame_tfix', 'C19_set_frame_files', 'C19_set_frame_dr', 'C19_set_frame_tgr', 'C19_set_frame_tgrft', 'C19_set_frame_tgrl', 'C19_set_last_write_wins', 'C19_set_lww_rmin', 'C19_set_lww_rmax', 'C19_set_lww_rdelta', 'C19_set_lww_rho', 'C19_set_lww_bcoh', 'C19_set_lww_btot', 'C19_set_lww_lowq', 'C19_set_lww_lorch', 'C19_set_lww_cutoff', 'C19_set_lww_merge', 'C19_set_lww_qmin', 'C19_set_lww_qmax', 'C19_set_lww_fn', 'C19_set_lww_stem', 'C19_set_lww_xmin', 'C19_set_lww_xmax', 'C19_set_independent_commute', 'C19_set_independent_same_error', 'C19_set_grid_setters_commute', 'C19_set_dr_vs_grid_op_do_not_commute', 'C19_set_fn_vs_title_op_do_not_commute', 'C19_set_same_field_do_not_commute', 'C19_set_file_ops_do_not_commute', 'C19_set_idempotent', 'C19_set_idempotent_strong', 'C19_set_append_not_idempotent', 'C19_set_construct_ok', 'C19_set_construct_obj_of', 'C19_set_construct_err', 'C19_set_construct_ok_only_if', 'C19_set_ctor_ops_no_dr_no_title']
 RULE = ("StoG(**cfg) for subsets of the optional keys (thorough: every presence pattern of the 14 optional keys; quick: sampled) with valid, "
         "invalid (unknown function name, non-boolean flag) and boundary values; r grid compared element-wise with np.arange; pystog_cli run "
         "end to end in a scratch directory in JSON and flag form, its call sequence and its files compared with driving the library with "
